@@ -29,8 +29,8 @@ def model_line(sc):
     modes = "".join(MODE_LETTER[sc["callbacks"].get(c)] for c in CBS)
     atts = []
     for a in sc["attempts"]:
-        if a.get("refuse"):
-            atts.append("R")
+        if a.get("refuse") or a.get("unreachable"):
+            atts.append("R")              # for the model every failed TCP connect is the same event
         elif "status" in a:
             atts.append(f"J{a['status']}")
         else:
@@ -63,8 +63,11 @@ def sim_scenario(sc):
         if a.get("refuse"):
             attempts.append({"refuse": True})
             continue
+        if a.get("unreachable"):
+            attempts.append({"unreachable": a["unreachable"]})
+            continue
         if "status" in a:
-            attempts.append({"status": a["status"]})
+            attempts.append({"status": a["status"], "short_body": bool(a.get("short_body")), "events": [[0.0, "EOF"]] if a.get("short_body") else []})
             continue
         evs = []
         t = 0.0
@@ -115,7 +118,7 @@ def impl_line(res):
             out.append(f"{name}:{dg(a[0])[0]}")
         elif name == "error":
             cls = a[0].split(":", 1)[1] if a[0].startswith("exc:") else a[0]
-            cls = {"Other:RuntimeError": "Callback", "Other:KeyboardInterrupt": "Kbd", "Transport:111": "Refused"}.get(cls, cls)
+            cls = {"Other:RuntimeError": "Callback", "Other:KeyboardInterrupt": "Kbd", "Transport:111": "Refused", "Transport:113": "Refused", "Transport:101": "Refused"}.get(cls, cls)
             out.append("err:" + cls)
         elif name == "close":
             code = a[0]
